@@ -444,6 +444,9 @@ def r2(ctx: Ctx, roles) -> None:
             )
             ctx.ob("C09.R2", fn, r, ok, f"raises {cls}, which is outside the connection-error hierarchy")
     ctx.count("C09.R2", n_r, 15, "raise statements in connection.py")
+    # the interruption sentinel is not itself a connection error: the phase wrapper returns connection errors as they
+    # are, and only classifies what is NOT one by the recorded fatal cause ("first cause wins")
+    ctx.ob("C09.R2", "connection:ConnectionInterruptedError", "the interruption sentinel is outside the connection-error hierarchy", "ConnectionInterruptedError" in ctx.repo.classes and not ctx.repo.is_subclass("ConnectionInterruptedError", "APIConnectionError"), f"bases {ctx.repo.classes['ConnectionInterruptedError'].base_names if 'ConnectionInterruptedError' in ctx.repo.classes else None}: the wrapper would hand the bare sentinel to the waiter instead of the first fatal cause")
     # (d) the closer wraps foreign causes before failing waiters
     closer = roles.closer
     se = [c for c in own_nodes(closer.node) if isinstance(c, ast.Call) and isinstance(c.func, ast.Attribute) and c.func.attr == "set_exception"]
